@@ -159,6 +159,87 @@ func c16(c *core.Ctx) {
 			"Close flushes once and closes the chronicler without waiting for operations that already hold the swamp (the idle check and Close are not atomic with SummonSwamp+BeginVigil): a save acknowledged after the flush is never written")
 	}
 
+	rCF := c.Rule("C16.closeflush", "the writer that Close runs in close mode cannot return before it handed the pending records to the chronicler, except when nothing is pending: on every path with the close-mode parameter true, a return that precedes Chronicler.Write is dominated by the 'pending set is empty' test", 1)
+	{
+		pending := p.MustField(pkgSwamp, "swamp", "treasuresWaitingForWriter")
+		n := 0
+		for _, f := range p.FuncsIn(pkgSwamp) {
+			if f.Decl.Body == nil {
+				continue
+			}
+			info := f.Info()
+			var write *ast.CallExpr
+			core.Calls(f.Decl.Body, false, func(call *ast.CallExpr) {
+				if core.MethodNamed(info, call, pkgChron, []string{"Chronicler"}, "Write") {
+					write = call
+				}
+			})
+			sig := f.Obj.Type().(*types.Signature)
+			var mode types.Object
+			for i := 0; i < sig.Params().Len(); i++ {
+				if b, ok := sig.Params().At(i).Type().Underlying().(*types.Basic); ok && b.Kind() == types.Bool {
+					mode = sig.Params().At(i)
+				}
+			}
+			if write == nil || mode == nil {
+				continue
+			}
+			// Close must call it with the constant true (C02.closeorder checks the argument)
+			n++
+			c.Touch(f)
+			fl := core.NewFlow(p, info, f.Decl.Body)
+			// edges on which the mode parameter is known to be false are not taken in close mode
+			cut := map[core.Edge]bool{}
+			for bi := range fl.G.Blocks {
+				cond := fl.CondOf(bi)
+				if cond == nil {
+					continue
+				}
+				for si := 0; si < 2; si++ {
+					for _, ft := range fl.EdgeFacts(bi, si) {
+						if id, ok := core.Unparen(ft.Expr).(*ast.Ident); ok && info.Uses[id] == mode && !ft.Truth {
+							cut[core.Edge{From: bi, Succ: si}] = true
+						}
+					}
+				}
+			}
+			bad := ""
+			fl.Walk(fl.Entry(), cut, false, func(l core.Loc, nd ast.Node) bool {
+				if core.ContainsNode(write)(nd) {
+					return false
+				}
+				if _, isRet := nd.(*ast.ReturnStmt); isRet {
+					empty := false
+					for _, ft := range fl.FactsAt(l) {
+						be, ok := ft.Expr.(*ast.BinaryExpr)
+						if !ok {
+							continue
+						}
+						call, ok := core.Unparen(be.X).(*ast.CallExpr)
+						if !ok {
+							continue
+						}
+						fo := core.Callee(info, call)
+						if fo == nil || fo.Name() != "Count" || core.FieldOf(info, core.RecvExpr(call)) != pending {
+							continue
+						}
+						if v, isC := core.ConstInt(info, be.Y); isC && v == 0 && ((be.Op == token.EQL && ft.Truth) || (be.Op == token.LEQ && ft.Truth) || (be.Op == token.NEQ && !ft.Truth) || (be.Op == token.GTR && !ft.Truth)) {
+							empty = true
+						}
+					}
+					if !empty {
+						bad = p.Pos(nd.Pos())
+					}
+				}
+				return true
+			})
+			rCF.Check(bad == "", f.Key+":close-mode-reaches-Write", f.Decl.Pos(), "close mode always reaches Chronicler.Write unless nothing is pending", "in close mode the writer can return at "+bad+" before handing the pending records to the chronicler although records are pending: Close then closes the chronicler and a save acknowledged meanwhile is never written")
+		}
+		if n == 0 {
+			rCF.Bad(pkgSwamp+":close-writer", token.NoPos, "no function with a close-mode flag hands pending records to Chronicler.Write")
+		}
+	}
+
 	rS := c.Rule("C16.shutdown", "graceful stop marks the hydra shutting down before it closes the swamps, and the closing pass ranges over the live swamp map calling Close", 2)
 	{
 		g := c.Fn(pkgHydra + ".hydra.GracefulStop")
